@@ -1,3 +1,4 @@
+import HqModel.Props.WorkerSide
 import HqModel.Lemmas.CoreSteps
 /-!
 # C06 — one live execution per task; instance ids strictly increase
